@@ -209,13 +209,15 @@ def _eval_set_media_text(chk, rid, m):
              'tv': lambda: Record(type='MediaQuery', value=MQ(mediaType='tv', wellformed=True)),
              'print': lambda: Record(type='MediaQuery', value=MQ(mediaType='print', wellformed=True)),
              'all': lambda: Record(type='MediaQuery', value=MQ(mediaType='all', wellformed=True)),
+             'TV': lambda: Record(type='MediaQuery', value=MQ(mediaType='TV', wellformed=True)),
+             'ALL': lambda: Record(type='MediaQuery', value=MQ(mediaType='All', wellformed=True)),
              'feat': lambda: Record(type='MediaQuery', value=MQ(mediaType=None, wellformed=True)),
              'bad': lambda: Record(type='MediaQuery', value=MQ(mediaType='tv', wellformed=False))}
-    n = bad = 0
-    first = ''
+    n = 0
+    classes = {}
     for length in range(0, 5):
         for combo in itertools.product(sorted(kinds), repeat=length):
-            if length == 4 and combo.count('c') + combo.count('feat') > 2:
+            if length == 4 and (combo.count('c') + combo.count('feat') > 2 or len(set(combo)) > 3):
                 continue
             items = [kinds[k]() for k in combo]
             for it, k in zip(items, combo):
@@ -238,24 +240,28 @@ def _eval_set_media_text(chk, rid, m):
                 want = ('rejected',)
                 got = ('rejected',) if me._wellformed is False and me.committed is None else ('accepted', me._wellformed)
             else:
-                if 'all' in combo:
-                    i = combo.index('all')
-                    want_tags = [k for k in combo[:i] if k == 'c'] + ['all']
+                if 'all' in combo or 'ALL' in combo:
+                    i = min(combo.index(x) for x in ('all', 'ALL') if x in combo)
+                    want_tags = [k for k in combo[:i] if k == 'c'] + [combo[i]]
                 else:
                     want_tags, seen = [], set()
                     for k in combo:
-                        if k in ('tv', 'print'):
-                            if k in seen:
-                                continue
-                            seen.add(k)
+                        if k in ('tv', 'print', 'TV'):
+                            if k.lower() in seen:
+                                continue  # media types are case-insensitive
+                            seen.add(k.lower())
                         want_tags.append(k)
                 want = ('accepted', want_tags)
                 got = ('accepted', [it.tag for it in me.committed.items]) if me.committed is not None and me._wellformed else ('rejected',)
+            cls = "lists with 'all' in another letter case" if 'ALL' in combo else 'lists with one type in two spellings' if ('TV' in combo and 'tv' in combo) else 'lists with an upper-case type' if 'TV' in combo else 'lists of lower-case types'
+            classes.setdefault(cls, [0, 0, ''])
+            classes[cls][0] += 1
             if got != want:
-                bad += 1
-                first = first or f'queries {list(combo)}: {got}, prescribed {want}'
+                classes[cls][1] += 1
+                classes[cls][2] = classes[cls][2] or f'queries {list(combo)}: {got}, prescribed {want}'
     chk.extra['medialist_cases_evaluated'] = n
-    chk.ob(rid, ML, 'MediaList._setMediaText', f"all {n} model lists: 'all' replaces everything but the comments before it, a repeated media type is dropped, queries without a simple type are kept, one malformed query or no query rejects the list", bad == 0, f'{bad} cases differ, e.g. {first}')
+    for cls, (k, b, first) in sorted(classes.items()):
+        chk.ob(rid, ML, 'MediaList._setMediaText', f"{cls}: 'all' replaces everything but the comments before it, a repeated media type - in any letter case - is dropped, queries without a simple type are kept, one malformed query or no query rejects the list", b == 0, f'{b} of {k} cases differ, e.g. {first}')
 
 
 
@@ -279,7 +285,7 @@ def _eval_edit_media(chk, rid, m):
             if k == 'c':
                 list.append(sq, Record(value=Record(cssText='/*c*/'), type='COMMENT', tag=f'c{i}'))
             else:
-                list.append(sq, Record(value=MQ(mediaType=k, wellformed=True, tag=f'{k}{i}'), type='MediaQuery', tag=f'{k}{i}'))
+                list.append(sq, Record(value=MQ(mediaType=k, mediaText=f'{k or ""} /*q*/ and (color)', wellformed=True, tag=f'{k}{i}'), type='MediaQuery', tag=f'{k}{i}'))
         return sq
 
     def tags(sq):
@@ -295,7 +301,7 @@ def _eval_edit_media(chk, rid, m):
             sq = mk(kinds)
             me = Record(_seq=sq, _checkReadonly=lambda: None, _log=Record(info=lambda *a, **k: logged.append(('info', k.get('error'))), error=lambda *a, **k: logged.append(('error', k.get('error')))))
             me._clearSeq = lambda sq=sq: sq.clear()
-            new = MQ(mediaType=newtype, wellformed=wf, tag='NEW')
+            new = MQ(mediaType=newtype, mediaText=f'{newtype or ""} and (monochrome)', wellformed=wf, tag='NEW')
             intr = {'normalize': lambda x: x.lower() if x else x, 'MediaQuery': MQ, 'xml': Record(dom=Record(InvalidModificationErr='InvalidModificationErr', NotFoundErr='NotFoundErr')),
                     'self._log.info': me._log.info, 'self._log.error': me._log.error}
             res = Evaluator(m.get('MediaList.appendMedium'), intrinsics=intr, model_types=(SeqM,), module=m, cls='MediaList').run(self=me, newMedium=new)
@@ -322,7 +328,7 @@ def _eval_edit_media(chk, rid, m):
             logged = []
             sq = mk(kinds)
             me = Record(_seq=sq, _checkReadonly=lambda: None, _log=Record(error=lambda *a, **k: logged.append(k.get('error'))))
-            intr = {'normalize': lambda x: x.lower() if x else x, 'xml': Record(dom=Record(NotFoundErr='NotFoundErr')), 'self._log.error': me._log.error}
+            intr = {'normalize': lambda x: x.lower() if x else x, 'MediaQuery': MQ, 'xml': Record(dom=Record(NotFoundErr='NotFoundErr')), 'self._log.error': me._log.error}
             res = Evaluator(m.get('MediaList.deleteMedium'), intrinsics=intr, model_types=(SeqM,), module=m, cls='MediaList').run(self=me, oldMedium=old)
             n += 1
             before = tags(mk(kinds))
